@@ -69,6 +69,15 @@ func c16Op(k int, pos int) []c16Rec {
 	case 10: // definition with an unknown architecture byte
 		d := fitmodel.Def{Local: 10, Global: 20, Fields: []fitmodel.FieldDef{{Num: 3, Size: 1, Base: fitmodel.Uint8}}, ArchByte: 3}
 		return []c16Rec{{b: d.Bytes(), unkMsg: -1, fails: true}}
+	case 13: // explicit timestamp on a known message (sets the time reference)
+		d := fitmodel.Def{Local: 2, Global: 20, Fields: []fitmodel.FieldDef{{Num: 253, Size: 4, Base: fitmodel.Uint32}, {Num: 3, Size: 1, Base: fitmodel.Uint8}}}
+		return []c16Rec{def(d), {b: fitmodel.Data(2, []byte{0x1E, 0xCA, 0x9A, 0x3B, id}), isData: true, unkMsg: -1}}
+	case 14: // known message with a compressed-timestamp header (local 3, small offset: rolls over after case 15)
+		d := fitmodel.Def{Local: 3, Global: 20, Fields: []fitmodel.FieldDef{{Num: 3, Size: 1, Base: fitmodel.Uint8}}}
+		return []c16Rec{def(d), {b: fitmodel.Compressed(3, byte(2+pos), []byte{id}), isData: true, unkMsg: -1}}
+	case 15: // unknown message with a compressed-timestamp header and a large offset
+		d := fitmodel.Def{Local: 0, Global: 0xFB00, Fields: []fitmodel.FieldDef{{Num: 1, Size: 1, Base: fitmodel.Uint8}}}
+		return []c16Rec{def(d), {b: fitmodel.Compressed(0, byte(28+pos), []byte{id}), isData: true, unkMsg: 0xFB00}}
 	case 12: // unknown message with developer fields
 		d := fitmodel.Def{Local: 12, Global: 0xFC00, Fields: []fitmodel.FieldDef{{Num: 3, Size: 1, Base: fitmodel.Uint8}}, DevFlag: true, Dev: []fitmodel.DevDef{{Num: 0, Size: 2, Idx: 0}}}
 		return []c16Rec{def(d), {b: fitmodel.Data(12, []byte{id, 1, 1}), isData: true, unkMsg: 0xFC00}}
@@ -79,9 +88,9 @@ func c16Op(k int, pos int) []c16Rec {
 	panic("c16Op")
 }
 
-const c16Alpha = 13
+const c16Alpha = 16
 
-var c16Names = []string{"K", "KU1", "KU2", "UAx2", "UBx2", "REDEF", "Zx2", "ZDEV", "DEV", "UNDEF", "BADDEF", "UZx2", "UDEV"}
+var c16Names = []string{"K", "KU1", "KU2", "UAx2", "UBx2", "REDEF", "Zx2", "ZDEV", "DEV", "UNDEF", "BADDEF", "UZx2", "UDEV", "TS", "CK", "CU"}
 
 type c16Replay struct {
 	Word    []int  `json:"word"`
@@ -95,7 +104,7 @@ func init() {
 	vx.Register(&vx.Prop{
 		ID:    "C16",
 		Level: "model_checking",
-		Rule: "all words of length <=3 (quick) / <=4 (thorough) over 13 record groups {known message; with 1 / 2 unlisted fields; two unknown messages; redefinition; zero-field definition without/with developer flag; developer fields; data for an undefined local type; bad definition; zero-field unknown message} x every truncation offset x all 8 option combinations (logger x unknown fields x unknown messages). " +
+		Rule: "all words of length <=3 (quick) / <=4 (thorough) over 16 record groups {known message; with 1 / 2 unlisted fields; two unknown messages; redefinition; zero-field definition without/with developer flag; developer fields; data for an undefined local type; bad definition; zero-field unknown message; unknown message with developer fields; explicit timestamp; known and unknown messages with compressed-timestamp headers} x every truncation offset x all 8 option combinations (logger x unknown fields x unknown messages). " +
 			"Most groups (re)define the same local type 1, so that words also cover redefinition of a slot from a known message with unlisted fields to an unknown or field-less message. Oracle: content, error text and bytes consumed equal the option-free run; lists absent when the option is off, sorted without duplicates when on; on success equal to the model counters, on failure completed <= reported <= completed + record in progress. states = distinct model counter states; transitions = records; traces = decodes compared",
 		Run: runC16,
 		Replay: func(raw json.RawMessage) (string, error) {
